@@ -271,3 +271,24 @@ Example C04_single_ack_instance :
           Respond 0 {| a_code := 69; a_payload := [170]; a_nr := None; a_rel := None |};
           Recv (req 0 CON 7 [1] HSlow); Recv (req 0 CON 7 [1] HSlow)])) = [ack 7 0 [] []; ack 7 0 [] []; ack 7 0 [] []].
 Proof. vm_compute. reflexivity. Qed.
+
+(* ---- round 7: the model's transport constants and message-ID successor are the translated source's
+   (Gen/c03_constants.v <- numbers/constants.py TransportTuning, microseconds = seconds * 10^6; Gen/c14_message_id.v <- MessageManager._next_message_id) *)
+From Verif Require Gen.c03_constants Gen.c14_message_id.
+From Verif Require Proofs.C04Tie.
+Theorem C04_exchange_lifetime_is_source :
+  QArith_base.Qeq (QArith_base.inject_Z EXCHANGE_LIFETIME) (QArith_base.Qmult (c03_constants.EXCHANGE_LIFETIME c03_constants.default_transport_tuning) (QArith_base.inject_Z 1000000)).
+Proof. exact C04Tie.exchange_lifetime_is_source. Qed.
+Print Assumptions C04_exchange_lifetime_is_source.
+Theorem C04_empty_ack_delay_is_source :
+  QArith_base.Qeq (QArith_base.inject_Z EMPTY_ACK_DELAY) (QArith_base.Qmult (c03_constants.tt_EMPTY_ACK_DELAY c03_constants.default_transport_tuning) (QArith_base.inject_Z 1000000)).
+Proof. exact C04Tie.empty_ack_delay_is_source. Qed.
+Print Assumptions C04_empty_ack_delay_is_source.
+Theorem C04_max_retransmit_is_source :
+  MAX_RETRANSMIT = c03_constants.tt_MAX_RETRANSMIT c03_constants.default_transport_tuning.
+Proof. exact C04Tie.max_retransmit_is_source. Qed.
+Print Assumptions C04_max_retransmit_is_source.
+Theorem C04_next_message_id_is_source :
+  forall s, c14_message_id.next_message_id {| c14_message_id.mmids_message_id := message_id s |} = Ok ({| c14_message_id.mmids_message_id := message_id (fst (_next_message_id s)) |}, snd (_next_message_id s)).
+Proof. exact C04Tie.next_message_id_is_source. Qed.
+Print Assumptions C04_next_message_id_is_source.
